@@ -85,7 +85,7 @@ class Scen:
         self.faultset = set(case.get("faults", ()))
         app = web.Application()
         app.router.add_route("*", "/{id:.*}", self.handler)
-        self.conn = AppConn(loop, app, keepalive_timeout=75, lingering_time=10.0, **case.get("server_kw", {}))
+        self.conn = AppConn(loop, app, **dict({"keepalive_timeout": 75, "lingering_time": 10.0}, **case.get("server_kw", {})))
         self.conn.st.set_write_buffer_limits(high=64, low=16)
         self.conn.send(self.stream)
         self.ref = http1.read_requests(self.stream, upgrades=())
@@ -231,6 +231,13 @@ class Scen:
         fr = c.responses()
         finals = [r for r in fr.responses if not (100 <= r.status < 200)]
         delivered = len(self.stream) - len(c.ct.wire)
+        # the server stopped reading with client bytes still in flight, nothing runs and no handler is parked on a
+        # harness future: nobody is left who could resume reading - the connection is stuck
+        if c.st._paused and c.ct.wire and not any(not f.done() for f in self.parked.values()):
+            w = c.proto._waiter
+            if w is not None and not w.done():
+                self.P("reading-paused-forever", f"connection open at t={self.loop.time():g}: reading is paused, {len(c.ct.wire)} client bytes wait in flight, "
+                       f"the request loop is idle waiting for input ({len(finals)} responses so far)")
         ref = http1.read_requests(self.stream[:delivered], upgrades=())
         complete = [m for m in ref.messages if m.complete]
         if ref.verdict in ("reject", "reject-body") or ref.pending_head and False:
@@ -346,6 +353,12 @@ def cases(quick):
         for beh in ("ret", "read", "park"):
             out.append({"name": f"upgrade-body-{nm}-declined-{beh}", "stream": mk(0) + req(1) + req(2, "post"), "behaviours": [beh, "ret", "read"], "faults": F})
     out.append({"name": "reuse-response-object", "stream": req(0) + req(1) + req(2), "behaviours": ["reuse"], "faults": F})
+    # server options nobody sets in tests: no lingering, small read buffer; the unread remainder is larger than the buffer
+    for beh in ("ret", "park"):
+        out.append({"name": f"nolinger-big-unread-{beh}", "stream": req(0, "big") + req(1) + req(2, "post"), "behaviours": [beh, "ret", "read"], "faults": F,
+                    "server_kw": {"lingering_time": 0, "read_bufsize": 64}})
+        out.append({"name": f"shortlinger-big-unread-{beh}", "stream": req(0, "big") + req(1), "behaviours": [beh, "ret"], "faults": F,
+                    "server_kw": {"lingering_time": 2.0, "read_bufsize": 64}})
     out.append({"name": "post-unread-then-2", "stream": req(0, "post") + req(1) + req(2), "behaviours": ["ret"], "faults": F})
     out.append({"name": "park-first-of-3", "stream": pipe(3), "behaviours": ["park", "ret", "read"], "faults": F})
     # around the queue limit
